@@ -49,6 +49,7 @@ def _compile_steps(vfs_dump: dict, steps: list[dict]) -> list[dict]:
     Returns one outcome per compile step."""
     sut.quiet_logging()
     vfs = Vfs.load(vfs_dump).install()
+    vfs.max_open_files = 64  # far more than any import chain of the worlds needs; an endless chain of imports runs out
     compilers: dict = {}
     outs = []
     for st in steps:
@@ -633,7 +634,9 @@ INVALID_BODIES = {
     "syntax_error": "a(;",
 }
 TWO_ARGS = ("macro two_args($a, $b) {\n    x($a, $b);\n}\nmacro second_unused($a, $b) {\n    x($a);\n}\n"
-            "macro only_unused($a) {\n    x(30);\n}\nmacro dup_params($x, $x) {\n    f($x);\n}\n")
+            "macro only_unused($a) {\n    x(30);\n}\n")
+# (on its own: a definition that is itself rejected must not sit next to the other entries' helpers and mask them)
+DUP_PARAMS = "macro dup_params($x, $x) {\n    f($x);\n}\n"
 # helper macros of the label-scope entries: `owner` defines a label, `jumper` jumps to a label that only its caller defines
 LABEL_MACROS = "macro owner() {\n    @owned;\n    o();\n}\n"
 JUMPER_MACRO = "macro jumper() {\n    jump @in_body;\n}\n"
@@ -755,7 +758,11 @@ def c10_worlds(rng: random.Random) -> list[dict]:
         W(f"coroutine_in_imported_file_depth_{depth}", files3)
     # every offending statement, at every place it can sit
     for nm, body in INVALID_BODIES.items():
-        extra = TWO_ARGS if "macro_argument" in nm else (JUMPER_MACRO if nm == "jump_to_label_of_a_routine_from_macro_scope" else LABEL_MACROS if "_to_label_of_" in nm else "")
+        extra = (DUP_PARAMS if "repeated_parameter_name" in nm else TWO_ARGS) if "macro_argument" in nm else (JUMPER_MACRO if nm == "jump_to_label_of_a_routine_from_macro_scope" else LABEL_MACROS if "_to_label_of_" in nm else "")
+        if "repeated_parameter_name" not in nm and nm != "jump_to_label_of_a_routine_from_macro_scope":  # (there the helper IS the offence)
+            # control: the helper definitions of this entry are themselves accepted (a helper that is rejected on its own
+            # would make every placement of the entry "rejected" for the wrong reason - it happened twice)
+            W(f"control:helpers_of:{nm}", {M: extra + _wrap("control_op();", "routine")}, expect="accept")
         W(f"{nm}@main_routine", {M: extra + _wrap(body, "routine")})
         W(f"{nm}@routine_for_named_actor", {M: extra + _wrap(body, "routine").replace("def 0 {", "def 0 for actor ACTOR_NPC {")})
         W(f"{nm}@routine_for_object_id", {M: extra + "def 0 {\n    first();\n    end;\n}\n" + _wrap(body, "routine").replace("def 0 {", "def 1 for object (3) {")})
@@ -776,7 +783,7 @@ def c10_worlds(rng: random.Random) -> list[dict]:
     for nm, body in INVALID_BODIES.items():
         if nm == "syntax_error":
             continue
-        extra = (TWO_ARGS if "macro_argument" in nm else (JUMPER_MACRO if nm == "jump_to_label_of_a_routine_from_macro_scope" else LABEL_MACROS if "_to_label_of_" in nm else "")) + PREFIX_MACROS
+        extra = ((DUP_PARAMS if "repeated_parameter_name" in nm else TWO_ARGS) if "macro_argument" in nm else (JUMPER_MACRO if nm == "jump_to_label_of_a_routine_from_macro_scope" else LABEL_MACROS if "_to_label_of_" in nm else "")) + PREFIX_MACROS
         for pn, prefix in PREFIXES.items():
             if pn == "nothing":
                 continue
@@ -847,7 +854,7 @@ def c10_worlds(rng: random.Random) -> list[dict]:
     for nm, body in INVALID_BODIES.items():
         if nm in ("syntax_error",):
             continue
-        extra = TWO_ARGS if "macro_argument" in nm else (JUMPER_MACRO if nm == "jump_to_label_of_a_routine_from_macro_scope" else LABEL_MACROS if "_to_label_of_" in nm else "")
+        extra = (DUP_PARAMS if "repeated_parameter_name" in nm else TWO_ARGS) if "macro_argument" in nm else (JUMPER_MACRO if nm == "jump_to_label_of_a_routine_from_macro_scope" else LABEL_MACROS if "_to_label_of_" in nm else "")
         W(f"{nm}@routine_whose_id_is_defined_again", {M: extra + _wrap(body, "routine") + "def 0 {\n    second();\n    end;\n}\n"})
     W("empty_import_path", {M: 'import "";\n' + VALID_MAIN})
     W("empty_import_path_with_lookup_paths", {M: "import '';\n" + VALID_MAIN}, lookup=["/proj/macros"], expect="reject-or-oserror")
